@@ -2,19 +2,21 @@
 Props/C14 — YAML loading reproduces the value of every well-formed document.
 Property theorems only; lemmas live in Proof/YamlRoundTrip.lean.
 
-`render_load` (DESIGN §5): `∀ s, admissible s → loadRef (render s) = ok s.trees`, delivered in layers.
-Proved here in full: the byte layer, layer 1 (flow collections + double-quoted scalars), layer 2
-(block collections, nesting, compact forms, plain / single / double scalars and keys, every null /
-bool / int spelling) and the line-break layer (5) as a theorem about *every* stream, instantiated
-for layers 1 and 2.  Layers 3, 4, 6, 7 (block scalars, comments, anchors/aliases, multi-document)
-are `…_partial`:
-each is proved on an explicit finite family of streams exhibiting the layer's constructs (kernel
-evaluation of `loadRef ∘ render`), the universally quantified statement is the `Prop`-valued
-`render_load_full_statement`; for those layers the quantifier is covered by the correspondence check,
-which re-evaluates `loadRef (render s) = ok s.trees` on every generated stream.
+`render_load` (DESIGN §5): `∀ s, admissible s → loadRef (render s) = ok s.trees`.
+Proved here for EVERY admissible stream without anchors and aliases (`render_load_anchor_free`): the
+byte layer, layer 1 (flow collections + double-quoted scalars), layer 2 (block collections, nesting,
+compact forms, plain / single / double scalars and keys, every null / bool / int spelling), layer 3
+(literal and folded block scalars, chomping, indentation indicator, at any depth and at the root),
+layer 4 (comment lines, blank lines, trailing comments, before / inside / after documents), layer 5
+(LF / CRLF / CR) and layer 7 (`---` / `...`, several documents, root node on the marker line).
+Layer 6 (anchors / aliases) is `render_load_partial_anchors`: proved on an explicit finite family of
+streams (kernel evaluation of `loadRef ∘ render`); the universally quantified statement is the
+`Prop`-valued `render_load_full_statement`; for that layer the quantifier is covered by the
+correspondence check, which re-evaluates `loadRef (render s) = ok s.trees` on every generated stream.
 -/
 import SuccinctlyVerif.Proof.YamlRoundTrip
 import SuccinctlyVerif.Proof.YamlRefBlock
+import SuccinctlyVerif.Proof.YamlRefDocs
 import SuccinctlyVerif.Proof.YamlFamilies
 namespace SV.Props.C14
 open SV SV.YamlRef
@@ -69,48 +71,36 @@ example : admissible (l1Stream exL1 0) = true := by decide +kernel
 example : (l1Stream exL1 0).chars = "{\"k\\\"\\n\": [ -12, ~, TRUE, \"\\xe9\\x09\\U0001f600\\\\\"], \"\":   {}}\n".toList := by
   decide +kernel
 
-/-! ## Layers not yet proved for all streams
+/-! ## Every admissible stream without anchors and aliases -/
 
-Each theorem below is the layer's statement restricted to an explicit finite family of streams
-(`Proof/YamlFamilies.lean`) that exhibits the layer's constructs; `loadsBack s` says
-`admissible s ∧ loadChars s.chars = ok s.trees` and is evaluated by the Lean kernel.  MISSING in every
-one of them: the quantification over all admissible streams of the layer (`render_load_full_statement`
-restricted to the layer); that quantifier is covered only by the correspondence check, where the
-driver evaluates `loadRef (render s) = ok s.trees` for every generated stream. -/
+/-- Layers 1–5 and 7, for ALL presentations: every admissible stream in which no node carries an
+anchor and no node is an alias loads back to its trees.  `admissible` is the specification's side
+condition (Spec/YamlRef.lean); the stream may consist of any number of documents, each with or without
+`---` / `...` (a bare document only first), with comment and blank lines anywhere `admissible` allows
+them, any nesting of block and flow collections with any indentation steps and compact forms, every
+scalar style including literal and folded block scalars (also as a document's root), trailing
+comments, and LF, CRLF or CR line breaks. -/
+theorem render_load_anchor_free (s : PStream) (ha : admissible s = true)
+    (hn : ∀ d ∈ s.docs, d.root.noAnchors = true) : loadRef (render s) = .ok s.trees := by
+  rw [render_load_bytes]; exact loadChars_admissible s ha hn
 
-/-- Layer 2 (block collections with plain / quoted scalars) — for ALL presentations of the layer:
-a bare document whose root satisfies `bl2`, i.e. is built from
-* block mappings and block sequences, nested to any depth, each nested collection indented by any
-  step ≥ 1 (a sequence under a mapping key also by 0), or written compactly after `- ` (`- - x`,
-  `- k: v`), with any number of spaces after `-` / `:`;
-* keys in plain, single-quoted or double-quoted style;
-* scalars: plain (any `plainSafe` string that the core schema resolves to a string), single-quoted,
-  double-quoted (both escape policies), `null` in all five spellings including the empty one, booleans in
-  six spellings, integers in all five spellings (decimal, `+`, `0x`, `0o`, zero-padded);
-* flow collections (of such scalars, any depth) as leaves,
-* and (layer 3) literal `|` and folded `>` block scalars as values of block mapping entries and
-  sequence items at any depth: every chomping indicator, every content indentation 1–9 with or
-  without the explicit indentation indicator, any admissible text (`strOk`: printable lines, no
-  line of spaces only, leading-space first line only with the indicator; folded: no line starting
-  with a space, no leading line feed, folds at any set of single spaces between two words).
-* and (layer 4) comment lines and blank lines before any entry (except the first entry of the root
-  collection and of a compact collection), trailing comments ` #…` after any entry's scalar, flow
-  collection, block scalar header, `key:` or `-` (not on the line of a compact collection); a blank
-  line never directly after a keep-chomped block scalar.
-Not in this layer: block scalars at the document root (3), filler lines before the document's first
-line and a trailing comment on the root node (4), anchors and aliases (6), `---` / `...` and several
-documents (7). -/
-theorem render_load_block (x : PNode) (g : Nat) (h : x.bl2 .root = true) :
-    loadRef (render (bareStream x g)) = .ok [x.tree] := by
-  rw [render_load_bytes]; exact loadChars_block2 x g h
+/-- The same for the proof-side predicate `docsOk2` (weaker than `admissible` on anchor-free streams:
+no bound on indentation steps, key lengths or integer ranges, duplicate keys allowed). -/
+theorem render_load_docs (s : PStream) (h : docsOk2 true s.docs = true) : loadRef (render s) = .ok s.trees := by
+  rw [render_load_bytes]; exact loadChars_docs s h
 
-/-- Layers 2 + 5: the same under LF, CRLF and CR line breaks. -/
-theorem render_load_block_breaks (x : PNode) (g : Nat) (b : Break) (h : x.bl2 .root = true) :
-    loadRef (render { bareStream x g with br := b }) = .ok [x.tree] := by
-  rw [render_load_bytes]; exact loadChars_block2_breaks x g b h
+/-- Layers 2–4 as a bare single document whose root satisfies `bl2` (kept as the statement the
+non-vacuity examples below refer to). -/
+theorem render_load_block (x : PNode) (g : Nat) (h : x.bl2 .root = true) (hb : bareOk x = true) :
+    loadRef (render (bareStream x g)) = .ok [x.tree] :=
+  render_load_docs (bareStream x g) (bareStream_ok x g h hb)
 
-/-- Non-vacuity: the layer-2 family members (nested, compact, step 0, all scalar kinds) satisfy
-`bl2` and are admissible. -/
+/-- Layers 2–5: the same under LF, CRLF and CR line breaks. -/
+theorem render_load_block_breaks (x : PNode) (g : Nat) (b : Break) (h : x.bl2 .root = true) (hb : bareOk x = true) :
+    loadRef (render { bareStream x g with br := b }) = .ok [x.tree] :=
+  render_load_docs { bareStream x g with br := b } (bareStream_ok x g h hb)
+
+/-- Non-vacuity: nested, compact, step 0, all scalar kinds. -/
 def exL2 : PNode :=
   .map false 0 false (.cons {} "name".toList .plain (.str "a b:c#x".toList .plain)
     (.cons {} "it's".toList .single (.seq false 0 false (.cons {} (.int 7 2) (.cons {} (.str "- x".toList .single) (.cons {} (.null 4) .nil))))
@@ -118,8 +108,10 @@ def exL2 : PNode :=
       (.seq false 3 false (.cons {} (.map false 0 true (.cons {} "in".toList .plain (.bool false 1) (.cons {} "e".toList .plain (.seq true 0 false (.cons {} exL1 .nil)) .nil)))
         (.cons { gap := 2 } (.seq false 0 true (.cons {} (.int (-5) 4) (.cons {} (.str "?deep".toList .plain) .nil))) .nil))) .nil)))
 
+
 example : exL2.bl2 .root = true := by decide +kernel
 example : admissible (bareStream exL2 0) = true := by decide +kernel
+example : exL2.noAnchors = true := by decide +kernel
 
 /-- Non-vacuity for the block scalars of layer 3: keep / strip / clip, explicit indicator,
 deeper-indented and blank lines, a scalar followed by a sibling entry and one ending the document;
@@ -132,6 +124,7 @@ def exL3 : PNode :=
     (.cons {} "d".toList .plain (.str "".toList (.literal .strip 1 true))
     (.cons {} "e".toList .plain (.str "one two three\nfour\n\nfive six\n\n".toList (.folded .keep 2 false [3, 24]))
     (.cons {} "f".toList .plain (.seq false 0 false (.cons {} (.str "k: v # x".toList (.folded .strip 4 true [])) (.cons {} (.int 1 0) .nil))) .nil)))))
+
 
 example : exL3.bl2 .root = true := by decide +kernel
 example : admissible (bareStream exL3 0) = true := by decide +kernel
@@ -150,26 +143,39 @@ def exL4 : PNode :=
     (.cons { fill := [.comment "".toList, .blank], gap := 1, trail := some " [".toList } "c".toList .plain
       (.seq true 0 false (.cons {} (.int 2 0) .nil)) .nil)))
 
+
 example : exL4.bl2 .root = true := by decide +kernel
 example : admissible (bareStream exL4 0) = true := by decide +kernel
 example : (bareStream exL4 0).chars =
     "a: 1 # t: 1\n\n# about b\nb: # on key line\n  #in\n  - x\n  - #e\n\n  - | # hdr\n    l\n#\n\nc:  [2] # [\n".toList := by
   decide +kernel
 
-/-- Layer 3, the remaining part: a block scalar as the root node of a document — finite family only
-(block scalars below the root are proved for all presentations by `render_load_block`; the family
-also contains such). -/
-theorem render_load_partial_root_block_scalars : familyBlockScalar.all loadsBack = true := by decide +kernel
+/-- Non-vacuity for layer 7 and the document-level parts of layers 3 and 4: filler lines before the
+first document, a bare first document with a comment on its root, `...`, a `---` document whose root
+is a block scalar on the marker line, a `---` document with an inline root and a comment, an empty
+document, CRLF line breaks. -/
+def exS7 : PStream :=
+  { docs := [
+      { fill := [.comment " top".toList, .blank], root := exL4, rootMeta := { trail := some " root".toList }, endMarker := true },
+      { fill := [.blank], marker := true, root := .str "lit\n  x\n".toList (.literal .clip 2 false), rootMeta := { trail := some "c".toList } },
+      { marker := true, root := .seq true 0 false (.cons {} (.int 1 0) .nil), rootMeta := { gap := 1, trail := some "".toList }, endMarker := true },
+      { fill := [.comment "".toList], marker := true, root := .null 4 },
+      { marker := true, root := exL3 } ],
+    br := .crlf }
 
-/-- Layer 4, the remaining part: filler lines before the document's first line, trailing comment on the
-root node — finite family only (comments and blank lines between entries and trailing comments on entries
-are proved for all presentations by `render_load_block`). -/
-theorem render_load_partial_comments : familyComments.all loadsBack = true := by decide +kernel
+example : admissible exS7 = true := by decide +kernel
+example : ∀ d ∈ exS7.docs, d.root.noAnchors = true := by decide +kernel
+
+/-! ## Layer not yet proved for all streams
+
+The theorem below is the layer's statement restricted to an explicit finite family of streams
+(`Proof/YamlFamilies.lean`) that exhibits the layer's constructs; `loadsBack s` says
+`admissible s ∧ loadChars s.chars = ok s.trees` and is evaluated by the Lean kernel.  MISSING: the
+quantification over all admissible streams with anchors and aliases (`render_load_full_statement`
+restricted to streams in which `noAnchors` fails); that quantifier is covered only by the correspondence
+check, where the driver evaluates `loadRef (render s) = ok s.trees` for every generated stream. -/
 
 /-- Layer 6 (anchors and aliases) — finite family only. -/
 theorem render_load_partial_anchors : familyAnchors.all loadsBack = true := by decide +kernel
-
-/-- Layer 7 (several documents, `---` / `...`) — finite family only (the second stream uses CRLF). -/
-theorem render_load_partial_multi_document : familyMultiDoc.all loadsBack = true := by decide +kernel
 
 end SV.Props.C14
